@@ -1,6 +1,7 @@
 import PgBifrost.Proofs.ClientC03
 import PgBifrost.Model.ConnManager
 import PgBifrost.Gen.ClientSites
+import PgBifrost.Gen.ProgressSrc
 /-!
 # C03 — acknowledged position monotone and ledger-sourced; restarts never ahead
 
@@ -126,5 +127,45 @@ theorem manager_start_exact (c : PgBifrost.ConnManager.Conn) (ops : List PgBifro
 
 example : PgBifrost.ConnManager.run .none [.getRepl 0, .getRepl 7, .drop, .getRepl 1080, .close, .getPlain] =
     [.start 0, .reuse, .ok, .start 1080, .ok, .dial] := by decide
+
+/-! ## the acknowledgement logic is the one in the source
+
+`Gen/ProgressSrc.lean` is TRANSLATED from `handleProgress` / `sendProgressStatus` on every run: the body of the
+drain loop's receive case as a step on (overallProgress, progressUpdated), the condition for sending, the value
+the status carries. The model's `drain`, `handleProgress` and `sendStatus` are equal to it. -/
+section source
+open PgBifrost.Gen.ProgressSrc
+
+/-- the model's drain loop is the fold of the translated step over the values on the channel -/
+theorem drain_as_in_source (l : List Nat) (o : Nat) (u : Bool) :
+    drain l o u = l.foldl (fun p v => drainStep p.1 p.2 v) (o, u) := by
+  induction l generalizing o u with
+  | nil => rfl
+  | cons v r ih =>
+    have hstep : drainStep o u v = if o ≥ v then (o, u) else (v, true) := by
+      unfold drainStep
+      by_cases h : o ≥ v
+      · simp [h]
+      · have hv : v > o := by omega
+        simp [h, hv]
+    rw [List.foldl_cons, hstep, drain]
+    by_cases h : o ≥ v
+    · simp only [h, ↓reduceIte]; exact ih o u
+    · simp only [h, ↓reduceIte]; exact ih v true
+
+/-- a status is sent exactly under the source's condition, it carries `overallProgress` (after the drain), and the
+connection is requested at `highestWalStart` -/
+theorem handle_progress_as_in_source (s : State) (force : Bool) :
+    handleProgress s force =
+      (if sendCond (drain s.chan s.overall false).2 force
+       then sendStatus { s with overall := (drain s.chan s.overall false).1, chan := [] }
+       else ({ s with overall := (drain s.chan s.overall false).1, chan := [] }, [])) ∧
+    statusCarries = "c.overallProgress" ∧ statusStartArg = "c.highestWalStart" ∧
+    (∀ s', (sendStatus s').2.getLast? = some (.status s'.overall)) := by
+  refine ⟨by simp [handleProgress, sendCond], by decide, by decide, ?_⟩
+  intro s'
+  simp [sendStatus, getConnRepl]
+
+end source
 
 end PgBifrost.Props.C03
